@@ -5,21 +5,21 @@ Ltac Zify.zify_post_hook ::= Z.div_mod_to_equations.
 Lemma uuid_canonical_valid s : uuid_canonical s = true -> uuid_valid s = true.
 Proof. unfold uuid_canonical, uuid_valid. destruct (uuid_parse s); [reflexivity|discriminate]. Qed.
 
-(* changing only the ask book *)
-Lemma Inv_set_asks st m :
-  Inv st -> keys_nodup m ->
+(* changing only the ask book / only the bid book *)
+Lemma InvA_set_asks st m :
+  InvA st -> keys_nodup m ->
   (forall c k a, st_cfg st = Some c -> lookup k m = Some a -> ask_ok c k a) ->
-  Inv (set_asks st m).
-Proof.
-  intros [Hc Hv Ha Hb Hna Hnb] Hnd Hm. constructor; cbn; auto.
-Qed.
-Lemma Inv_set_bids st m :
-  Inv st -> keys_nodup m ->
+  InvA (set_asks st m).
+Proof. intros [Hc Hv Ha Hna] Hnd Hm. constructor; cbn; auto. Qed.
+Lemma InvA_set_bids st m : InvA st -> InvA (set_bids st m).
+Proof. intros [Hc Hv Ha Hna]. constructor; cbn; auto. Qed.
+Lemma InvB_set_asks st m : InvB st -> InvB (set_asks st m).
+Proof. intros [Hb Hnb]. constructor; cbn; auto. Qed.
+Lemma InvB_set_bids st m :
+  InvB st -> keys_nodup m ->
   (forall c k s, st_cfg st = Some c -> lookup k m = Some s -> exists b, s = SlotV3 b /\ bid_ok c k b) ->
-  Inv (set_bids st m).
-Proof.
-  intros [Hc Hv Ha Hb Hna Hnb] Hnd Hm. constructor; cbn; auto.
-Qed.
+  InvB (set_bids st m).
+Proof. intros [Hb Hnb] Hnd Hm. constructor; cbn; auto. Qed.
 
 Lemma ask_ok_after c k a size' :
   ask_ok c k a -> 1 <= size' -> ask_ok c k (ask_after a size').
@@ -31,63 +31,61 @@ Proof.
   - destruct (a_class a) as [| |ap cb]; auto. rewrite Hr. reflexivity.
 Qed.
 
-Lemma Inv_remove_ask st k :
-  Inv st -> Inv (set_asks st (remove k (st_asks st))).
+Lemma InvA_remove_ask st k : InvA st -> InvA (set_asks st (remove k (st_asks st))).
 Proof.
-  intros HI. apply Inv_set_asks; [exact HI|apply nodup_remove; apply HI|].
+  intros HI. apply InvA_set_asks; [exact HI|apply nodup_remove; apply HI|].
   intros c k' a Hc Hl. rewrite lookup_remove in Hl. destruct (String.eqb k' k); [discriminate|].
   eapply inv_asks; eauto.
 Qed.
-Lemma Inv_insert_ask st k a :
-  Inv st -> (forall c, st_cfg st = Some c -> ask_ok c k a) -> Inv (set_asks st (insert k a (st_asks st))).
+Lemma InvA_insert_ask st k a :
+  InvA st -> (forall c, st_cfg st = Some c -> ask_ok c k a) -> InvA (set_asks st (insert k a (st_asks st))).
 Proof.
-  intros HI Hok. apply Inv_set_asks; [exact HI|apply nodup_insert; apply HI|].
+  intros HI Hok. apply InvA_set_asks; [exact HI|apply nodup_insert; apply HI|].
   intros c k' a' Hc Hl. rewrite lookup_insert in Hl. destruct (String.eqb_spec k' k) as [->|Hne].
   - injection Hl as <-. auto.
   - eapply inv_asks; eauto.
 Qed.
-Lemma Inv_remove_bid st k :
-  Inv st -> Inv (set_bids st (remove k (st_bids st))).
+Lemma InvB_remove_bid st k : InvB st -> InvB (set_bids st (remove k (st_bids st))).
 Proof.
-  intros HI. apply Inv_set_bids; [exact HI|apply nodup_remove; apply HI|].
+  intros HI. apply InvB_set_bids; [exact HI|apply nodup_remove; apply HI|].
   intros c k' a Hc Hl. rewrite lookup_remove in Hl. destruct (String.eqb k' k); [discriminate|].
   eapply inv_bids; eauto.
 Qed.
-Lemma Inv_insert_bid st k b :
-  Inv st -> (forall c, st_cfg st = Some c -> bid_ok c k b) -> Inv (set_bids st (insert k (SlotV3 b) (st_bids st))).
+Lemma InvB_insert_bid st k b :
+  InvB st -> (forall c, st_cfg st = Some c -> bid_ok c k b) -> InvB (set_bids st (insert k (SlotV3 b) (st_bids st))).
 Proof.
-  intros HI Hok. apply Inv_set_bids; [exact HI|apply nodup_insert; apply HI|].
+  intros HI Hok. apply InvB_set_bids; [exact HI|apply nodup_insert; apply HI|].
   intros c k' s Hc Hl. rewrite lookup_insert in Hl. destruct (String.eqb_spec k' k) as [->|Hne].
   - injection Hl as <-. eauto.
   - eapply inv_bids; eauto.
 Qed.
 
 (* ---- cancel_ask ---- *)
-Lemma Inv_cancel_ask e st sender funds id st' r :
-  Inv st -> cancel_ask e st sender funds id = Ok (st', r) -> Inv st'.
+Lemma InvA_cancel_ask e st sender funds id st' r :
+  InvA st -> cancel_ask e st sender funds id = Ok (st', r) -> InvA st'.
 Proof.
-  intros HI H. apply cancel_ask_inv in H as (a & _ & _ & _ & -> & _). apply Inv_remove_ask. exact HI.
+  intros HI H. apply cancel_ask_inv in H as (a & _ & _ & _ & -> & _). apply InvA_remove_ask. exact HI.
 Qed.
 
 (* ---- reverse_ask ---- *)
-Lemma Inv_reverse_ask e st sender funds id action csz st' r :
-  Inv st -> reverse_ask FX e st sender funds id action csz = Ok (st', r) -> Inv st'.
+Lemma InvA_reverse_ask e st sender funds id action csz st' r :
+  InvA st -> reverse_ask FX e st sender funds id action csz = Ok (st', r) -> InvA st'.
 Proof.
   intros HI H. apply reverse_ask_inv in H as (c & a & eff & _ & Hc & _ & Hl & _ & _ & Hle & -> & _).
   pose proof (inv_asks st HI c id a Hc Hl) as Hok.
-  destruct (N.eqb_spec (a_size a - eff) 0) as [Hz|Hnz]; [apply Inv_remove_ask; exact HI|].
+  destruct (N.eqb_spec (a_size a - eff) 0) as [Hz|Hnz]; [apply InvA_remove_ask; exact HI|].
   assert (Hid : a_id a = id) by apply Hok. rewrite Hid.
-  apply Inv_insert_ask; [exact HI|]. intros c' Hc'. rewrite Hc in Hc'. injection Hc' as <-.
+  apply InvA_insert_ask; [exact HI|]. intros c' Hc'. rewrite Hc in Hc'. injection Hc' as <-.
   apply ask_ok_after; [exact Hok|lia].
 Qed.
 
 (* ---- approve_ask ---- *)
-Lemma Inv_approve_ask e st sender funds id base size st' r :
-  Inv st -> approve_ask e st sender funds id base size = Ok (st', r) -> Inv st'.
+Lemma InvA_approve_ask e st sender funds id base size st' r :
+  InvA st -> approve_ask e st sender funds id base size = Ok (st', r) -> InvA st'.
 Proof.
   intros HI H. apply approve_ask_inv in H as (c & a & Hc & _ & _ & Hl & Hcl & Hs & Hb & -> & _).
   pose proof (inv_asks st HI c id a Hc Hl) as (Hid & Hu & Hsz & Hbc & Hbb & Hq & Hp & _).
-  apply Inv_insert_ask; [exact HI|]. intros c' Hc'. rewrite Hc in Hc'. injection Hc' as <-.
+  apply InvA_insert_ask; [exact HI|]. intros c' Hc'. rewrite Hc in Hc'. injection Hc' as <-.
   unfold approved, ask_ok. cbn [a_id a_size a_class a_base a_quote a_price]. subst base.
   repeat split; auto; try discriminate.
   intros Hx. apply Hbc in Hx. congruence.
@@ -103,16 +101,79 @@ Proof.
   unfold market, bid_ok. intros H. injection H as _ _ Hb Hcv Hq _ _. rewrite <- Hb, <- Hq. auto.
 Qed.
 Lemma Inv_modify e st sender funds m st' r :
-  Inv st -> execute FX e st sender funds (ModifyContract m) = Ok (st', r) -> Inv st'.
+  execute FX e st sender funds (ModifyContract m) = Ok (st', r) ->
+  (InvA st -> InvA st') /\ (InvB st -> InvB st').
 Proof.
-  intros HI H. apply modify_contract_inv in H as (c & af & bf & Hc & _ & _ & _ & _ & _ & _ & _ & Hex & _ & _ & _ & _ & -> & _).
-  destruct HI as [(c0 & Hc0 & Hok) Hv Ha Hb Hna Hnb]. rewrite Hc in Hc0. injection Hc0 as <-.
+  intros H. apply modify_contract_inv in H as (c & af & bf & Hc & _ & _ & _ & _ & _ & _ & _ & Hex & _ & _ & _ & _ & -> & _).
   set (c' := mkcfg _ _ _ _ _ _ _ _ _ _ _ _ _).
   assert (Hm : market c = market c') by reflexivity.
-  constructor; cbn [set_cfg st_cfg st_ver st_asks st_bids]; auto.
-  - exists c'. split; [reflexivity|]. destruct Hok as (H1 & H2 & H3 & H4 & H5 & H6). unfold cfg_ok. cbn.
-    repeat split; auto. unfold opt_list. destruct (m_executors m) as [l|] eqn:El; [|exact H4]. apply (Hex l eq_refl).
-  - intros c2 k a Hc2 Hl. injection Hc2 as <-. eapply ask_ok_market; [exact Hm|]. eapply Ha; eauto.
-  - intros c2 k s Hc2 Hl. injection Hc2 as <-. destruct (Hb c k s Hc Hl) as (b & -> & Hbok).
+  split.
+  - intros [(c0 & Hc0 & Hok) Hv Ha Hna]. rewrite Hc in Hc0. injection Hc0 as <-.
+    constructor; cbn [set_cfg st_cfg st_ver st_asks st_bids]; auto.
+    + exists c'. split; [reflexivity|]. destruct Hok as (H1 & H2 & H3 & H4 & H5 & H6). unfold cfg_ok. cbn.
+      repeat split; auto. unfold opt_list. destruct (m_executors m) as [l|] eqn:El; [|exact H4]. apply (Hex l eq_refl).
+    + intros c2 k a Hc2 Hl. injection Hc2 as <-. eapply ask_ok_market; [exact Hm|]. eapply Ha; eauto.
+  - intros [Hb Hnb]. constructor; cbn [set_cfg st_cfg st_ver st_asks st_bids]; auto.
+    intros c2 k s Hc2 Hl. injection Hc2 as <-. destruct (Hb c k s Hc Hl) as (b & -> & Hbok).
     exists b. split; [reflexivity|]. eapply bid_ok_market; eauto.
+Qed.
+
+(* ---- create_ask ---- *)
+Lemma valid_price_of s prec p : valid_price s prec = Ok p -> price_of s p.
+Proof.
+  unfold valid_price, price_of. intros H. bind_inv H p0 Hp. guard_inv H Hz. bind_inv H bad Hb. guard_inv H Hnb.
+  injection H as <-. apply of_opt_ok in Hp. apply negb_true_iff in Hz. apply orb_false_iff in Hz as [Hz Hn].
+  pose proof (dec_parse_wf _ _ Hp) as [Hs _]. unfold dec_is_zero in Hz. apply N.eqb_neq in Hz.
+  unfold dec_is_neg in Hn. auto.
+Qed.
+
+Lemma InvA_create_ask e st sender funds id base quote price size st' r :
+  InvA st -> uuid_canonical id = true -> 1 <= size ->
+  create_ask e st sender funds id base quote price size = Ok (st', r) -> InvA st'.
+Proof.
+  intros HI Hid Hsz H. apply create_ask_iff in H as (c & Hc & (Hb & _ & Hq & _ & (p & Hp) & _ & _) & -> & _).
+  apply InvA_insert_ask; [exact HI|]. intros c' Hc'. rewrite Hc in Hc'. injection Hc' as <-.
+  unfold new_ask, ask_ok. cbn [a_id a_size a_class a_base a_quote a_price].
+  split; [reflexivity|]. split; [apply uuid_canonical_valid; exact Hid|]. split; [exact Hsz|].
+  split. { destruct (String.eqb_spec base (cf_base c)); split; auto; try discriminate; congruence. }
+  split; [exact Hb|]. split; [exact Hq|]. split; [exists p; eapply valid_price_of; exact Hp|].
+  destruct (String.eqb base (cf_base c)); exact I.
+Qed.
+
+(* ---- execute_match (ask side) ---- *)
+Lemma InvA_execute_match e st sender funds ask_id bid_id price size st' r :
+  InvA st -> 1 <= size -> execute_match FX e st sender funds ask_id bid_id price size = Ok (st', r) -> InvA st'.
+Proof.
+  intros HI Hsz H.
+  apply execute_match_inv in H as (c & a & b & ap & bp & xp & rb & gross_d & gross & af & bfee & fill & b' & rb' & imp &
+    Hc & _ & _ & Hla & _ & _ & _ & _ & _ & _ & _ & Hle & _ & _ & _ & _ & _ & _ & _ & _ & _ & _ & _ & _ & -> & _).
+  pose proof (inv_asks st HI c ask_id a Hc Hla) as Hok.
+  set (asks' := if a_size a - size =? 0 then _ else _).
+  assert (HA : InvA (set_asks st asks')).
+  { unfold asks'. destruct (N.eqb_spec (a_size a - size) 0) as [Hz|Hnz]; [apply InvA_remove_ask; exact HI|].
+    apply InvA_insert_ask; [exact HI|]. intros c' Hc'. rewrite Hc in Hc'. injection Hc' as <-.
+    apply ask_ok_after; [exact Hok|lia]. }
+  destruct HA as [H1 H2 H3 H4]. constructor; cbn in *; auto.
+Qed.
+
+(* ---- every execute request preserves the ask-side invariant ---- *)
+Theorem InvA_step e st sender funds m st' r :
+  InvA st -> execute FX e st sender funds m = Ok (st', r) -> InvA st'.
+Proof.
+  intros HI H. pose proof H as H0. unfold execute in H. guard_inv H Hv. destruct m; cbn [validate_exec] in Hv.
+  - eapply InvA_approve_ask; eauto.
+  - eapply InvA_cancel_ask; eauto.
+  - apply reverse_bid_inv in H as (c & b & rb & eff & p & tq & cq & back & b' & rb' & _ & _ & _ & _ & _ & _ & _ & _ & _ & _ & _ & _ & _ & _ & _ & -> & _).
+    apply InvA_set_bids. exact HI.
+  - repeat (apply andb_prop in Hv as [Hv ?]). eapply InvA_create_ask; eauto. apply N.leb_le. assumption.
+  - apply create_bid_inv in H as (c & p & total & dq & rate & calc & tot & _ & _ & _ & _ & _ & _ & _ & _ & _ & _ & _ & _ & _ & _ & _ & _ & -> & _).
+    apply InvA_set_bids. exact HI.
+  - repeat (apply andb_prop in Hv as [Hv ?]). eapply InvA_execute_match; eauto. apply N.leb_le. assumption.
+  - eapply InvA_reverse_ask; eauto.
+  - apply reverse_bid_inv in H as (c & b & rb & eff & p & tq & cq & back & b' & rb' & _ & _ & _ & _ & _ & _ & _ & _ & _ & _ & _ & _ & _ & _ & _ & -> & _).
+    apply InvA_set_bids. exact HI.
+  - eapply InvA_reverse_ask; eauto.
+  - apply reverse_bid_inv in H as (c & b & rb & eff & p & tq & cq & back & b' & rb' & _ & _ & _ & _ & _ & _ & _ & _ & _ & _ & _ & _ & _ & _ & _ & -> & _).
+    apply InvA_set_bids. exact HI.
+  - apply Inv_modify in H0 as [HA _]. auto.
 Qed.
